@@ -159,7 +159,74 @@ class Mod:
                 return ('range', r[0], r[1])
             if len(r) == 1:
                 return ('range', 0, r[0])
-        raise Unsupp('constant expression %s' % ast.unparse(e)[:40])
+        return self.safe_eval(e)
+
+    SAFE_BUILTINS = {'range': range, 'tuple': tuple, 'list': list, 'dict': dict, 'len': len, 'sum': sum, 'min': min,
+                     'max': max, 'str': str, 'int': int, 'bool': bool, 'sorted': sorted, 'reversed': reversed,
+                     'enumerate': enumerate, 'zip': zip, 'set': set, 'frozenset': frozenset, 'abs': abs}
+    SAFE_METHODS = {'join', 'format', 'upper', 'lower', 'ljust', 'rjust', 'strip', 'split', 'replace', 'keys', 'values',
+                    'items', 'get'}
+    SAFE_NODES = (ast.Constant, ast.Name, ast.Load, ast.Store, ast.BinOp, ast.UnaryOp, ast.BoolOp, ast.Compare, ast.IfExp,
+                  ast.Tuple, ast.List, ast.Dict, ast.Set, ast.Subscript, ast.Slice, ast.Attribute, ast.Call, ast.keyword,
+                  ast.GeneratorExp, ast.ListComp, ast.SetComp, ast.DictComp, ast.comprehension, ast.operator, ast.unaryop,
+                  ast.boolop, ast.cmpop, ast.JoinedStr, ast.FormattedValue)
+
+    def safe_eval(self, e):
+        """value of a pure constant expression (literals, known constants, pure builtins, str methods,
+        comprehensions): evaluated from the ast with no access to anything else"""
+        bound = set()
+        for n in ast.walk(e):
+            if not isinstance(n, self.SAFE_NODES):
+                raise Unsupp('constant expression %s' % ast.unparse(e)[:40])
+            if isinstance(n, ast.Name) and isinstance(n.ctx, ast.Store):
+                bound.add(n.id)
+            if isinstance(n, ast.Call):
+                f = n.func
+                if isinstance(f, ast.Name):
+                    if f.id not in self.SAFE_BUILTINS:
+                        raise Unsupp('constant expression calls %s' % f.id)
+                elif not (isinstance(f, ast.Attribute) and f.attr in self.SAFE_METHODS):
+                    raise Unsupp('constant expression %s' % ast.unparse(e)[:40])
+        env = {}
+        for n in ast.walk(e):
+            if isinstance(n, ast.Name) and isinstance(n.ctx, ast.Load) and n.id not in bound \
+                    and n.id not in self.SAFE_BUILTINS and n.id not in env:
+                v = self.const_of(n)
+                if isinstance(v, tuple) and len(v) == 3 and v[0] == 'range':
+                    v = list(range(v[1], v[2]))
+                env[n.id] = v
+            if isinstance(n, ast.Attribute) and isinstance(n.value, ast.Name) and n.value.id not in bound \
+                    and n.attr not in self.SAFE_METHODS:
+                # X.Y: a constant of another module / an Enum member / a class constant
+                key = '__attr_%s_%s' % (n.value.id, n.attr)
+                env[key] = self.const_of(n) if (n.value.id in self.imports or n.value.id in self.enums
+                                                or n.value.id in self.classes) else None
+        class Rw(ast.NodeTransformer):
+            def visit_Attribute(self2, n):
+                if isinstance(n.value, ast.Name) and ('__attr_%s_%s' % (n.value.id, n.attr)) in env:
+                    return ast.copy_location(ast.Name(id='__attr_%s_%s' % (n.value.id, n.attr), ctx=ast.Load()), n)
+                return self2.generic_visit(n)
+        tree = ast.Expression(body=Rw().visit(ast.parse(ast.unparse(e), mode='eval').body))
+        ast.fix_missing_locations(tree)
+        try:
+            v = eval(compile(tree, '<const>', 'eval'), {'__builtins__': dict(self.SAFE_BUILTINS)}, env)
+        except Unsupp:
+            raise
+        except Exception as ex:  # noqa
+            raise Unsupp('constant expression %s: %s' % (ast.unparse(e)[:40], type(ex).__name__))
+        return self.freeze(v)
+
+    @staticmethod
+    def freeze(v):
+        if isinstance(v, (list, tuple)):
+            return tuple(Mod.freeze(x) for x in v)
+        if isinstance(v, (set, frozenset)):
+            return tuple(sorted(Mod.freeze(x) for x in v))
+        if isinstance(v, dict):
+            return tuple((Mod.freeze(k), Mod.freeze(x)) for k, x in v.items())
+        if isinstance(v, (int, str, bool, type(None))):
+            return v
+        raise Unsupp('constant of type %s' % type(v).__name__)
 
     def class_const(self, cname, attr):
         cd = self.classes[cname]
@@ -204,35 +271,122 @@ IDIOMS = [
     ("'.'.join(map(str, %s))", 'join_dot_str'),
     ("':'.join([f'{i:02x}' for i in %s])", 'join_colon_hex'),
 ]
-# classes whose behaviour is modelled BY HAND in Model/ApiSem.v (builtins version_field, component_property):
-# the translator uses the builtin only while the class source is what was modelled (ast fingerprint)
-HAND_FP = {
-    ('fields.py', ('VersionField',)): '9e6f00531324f629',
-    ('hpm.py', ('ComponentProperty', 'ComponentPropertyGeneral', 'ComponentPropertyCurrentVersion',
-                'ComponentPropertyDescriptionString', 'ComponentPropertyRollbackVersion',
-                'ComponentPropertyDeferredVersion')): '7bdf559fab1cd412',
-}
+# Classes whose behaviour is modelled BY HAND in Model/ApiSem.v (builtins version_field, component_property).
+# Guard: on every run the REAL class of the tree under test is evaluated on a fixed probe set and compared with the
+# Python twin of the builtin below (the twin itself is tied to the Gallina builtin by the C07 correspondence run).
+# A behavioural difference refuses the operations that use the builtin; a change of the source text alone does not.
+def twin_bcd_minor(b):
+    if b == 0xff:
+        return ('ok', 0xff)
+    if b > 0x99:
+        return ('exc', 'DecodingError')
+    hi, lo = b >> 4, b & 0xf
+    if lo < 10:
+        return ('ok', hi * 10 + lo)
+    if lo == 10:
+        return ('ok', hi)                  # "d " : int() strips the blank
+    return ('exc', 'ValueError')
 
 
-def fingerprint(path, names):
-    import hashlib
-    t = ast.parse(open(path).read())
-    out = []
-    for n in t.body:
-        if isinstance(n, ast.ClassDef) and n.name in names:
-            for x in ast.walk(n):
-                if (isinstance(x, (ast.FunctionDef, ast.ClassDef)) and x.body and isinstance(x.body[0], ast.Expr)
-                        and isinstance(x.body[0].value, ast.Constant) and isinstance(x.body[0].value.value, str)):
-                    x.body = x.body[1:] or [ast.Pass()]
-            out.append(ast.dump(n))
-    return hashlib.sha256('\n'.join(out).encode()).hexdigest()[:16]
+def twin_version_field(ma, mi):
+    r = twin_bcd_minor(mi)
+    return ('ok', (ma, r[1])) if r[0] == 'ok' else r
 
 
-def hand_ok(pkg, rel):
-    for (r, names), want in HAND_FP.items():
-        if r == rel and fingerprint(os.path.join(pkg, r), set(names)) != want:
-            return False
-    return True
+def twin_component_property(sel, data):
+    def version(cls):
+        if not data:
+            return ('ok', (cls, {}))
+        if len(data) < 2:
+            return ('exc', 'IndexError')
+        r = twin_bcd_minor(data[1])
+        return ('ok', (cls, {'version': (data[0], r[1])})) if r[0] == 'ok' else r
+    if sel == 0:
+        if not data:
+            return ('ok', ('ComponentPropertyGeneral', {}))
+        cap = data[0]
+        g = [['rollback_backup_not_supported', 'rollback_is_supported', 'rollback_is_supported', 'reserved'][cap & 3]]
+        g += [n for i, n in ((2, 'prepartion'), (3, 'comparison'), (4, 'deferred_activation'),
+                             (5, 'payload_cold_reset_required')) if cap >> i & 1]
+        return ('ok', ('ComponentPropertyGeneral', {'general': g}))
+    if sel == 1:
+        return version('ComponentPropertyCurrentVersion')
+    if sel == 2:
+        if not data:
+            return ('ok', ('ComponentPropertyDescriptionString', {}))
+        return ('ok', ('ComponentPropertyDescriptionString', {'description': ''.join(chr(x) for x in data if x)}))
+    if sel == 3:
+        return version('ComponentPropertyRollbackVersion')
+    if sel == 4:
+        return version('ComponentPropertyDeferredVersion')
+    if 192 <= sel < 255:
+        return ('exc', 'NotImplementedError')
+    return ('ok', None)
+
+
+_BEHAVIOUR = {}
+
+
+def behaviour_ok(repo, which):
+    """does the real class behave like the twin on the probe set? -> (bool, first difference)"""
+    if (repo, which) in _BEHAVIOUR:
+        return _BEHAVIOUR[(repo, which)]
+    import sys
+    from array import array
+    saved = list(sys.path)
+    sys.path.insert(0, repo)
+    try:
+        for m in [m for m in sys.modules if m == 'pyipmi' or m.startswith('pyipmi.')]:
+            del sys.modules[m]
+        import pyipmi.fields as fields
+        import pyipmi.hpm as hpm
+
+        def canon_v(v):
+            return (v.major, v.minor)
+
+        def attempt(f):
+            try:
+                return ('ok', f())
+            except Exception as e:  # noqa
+                return ('exc', type(e).__name__)
+        res = (True, None)
+        if which == 'version_field':
+            for ma in (0, 1, 127, 255):
+                for mi in range(256):
+                    got = attempt(lambda: canon_v(fields.VersionField((ma, mi))))
+                    if got != twin_version_field(ma, mi):
+                        res = (False, 'VersionField((%d, %d)) gives %r, the builtin %r' % (ma, mi, got, twin_version_field(ma, mi)))
+                        break
+                if not res[0]:
+                    break
+        else:
+            probes = []
+            for sel in (0, 1, 2, 3, 4, 5, 100, 192, 254, 255):
+                probes += [(sel, []), (sel, [7]), (sel, [1, 0x23, 0, 0, 0, 1]), (sel, [66, 79, 79, 84, 0, 0, 0, 0, 0, 0, 0, 0])]
+            probes += [(0, [x]) for x in range(256)]
+            probes += [(sel, [3, mi, 9, 8, 7, 6]) for sel in (1, 3, 4) for mi in range(256)]
+            probes += [(sel, [3, mi]) for sel in (1, 3) for mi in (0, 0x10, 0x99, 0xff, 0x1a, 0x1b, 0xa0)]
+            probes += [(2, [65 + (i * 7) % 26 for i in range(n)] + [0] * (12 - n)) for n in range(13)]
+
+            def canon_p(o):
+                if o is None:
+                    return None
+                d = {}
+                for k, v in vars(o).items():
+                    d[k] = canon_v(v) if type(v).__name__ == 'VersionField' else list(v) if isinstance(v, (list, tuple)) else v
+                return (type(o).__name__, d)
+            for sel, data in probes:
+                got = attempt(lambda: canon_p(hpm.ComponentProperty.from_data(sel, array('B', data))))
+                want = twin_component_property(sel, data)
+                if got != want:
+                    res = (False, 'ComponentProperty.from_data(%d, %r) gives %r, the builtin %r' % (sel, data, got, want))
+                    break
+    except Exception as e:  # noqa
+        res = (False, 'probe failed: %s: %s' % (type(e).__name__, e))
+    finally:
+        sys.path[:] = saved
+    _BEHAVIOUR[(repo, which)] = res
+    return res
 
 
 GUID_FMT = '%02x%02x%02x%02x-%02x%02x-%02x%02x-%02x%02x-%02x%02x%02x%02x%02x%02x'
@@ -252,6 +406,7 @@ class Ctx:
         self.tuples = {}       # python name -> list of ast nodes for x = (c1, c2, ...)
         self.ret = None
         self.retinfo = {'msgs': set(), 'other': False}
+        self.fn = None         # the FunctionDef being translated (for "assigned once, never mutated" checks)
 
     def child_copy(self):
         c = Ctx(self.T, self.mod, self.depth, self.selfkind, self.cls)
@@ -259,6 +414,7 @@ class Ctx:
         c.names, c.msgs, c.subst = self.names, dict(self.msgs), dict(self.subst)
         c.objcls, c.dicts, c.tuples, c.ret = dict(self.objcls), dict(self.dicts), dict(self.tuples), self.ret
         c.retinfo = self.retinfo
+        c.fn = self.fn
         return c
 
     def local(self, name):
@@ -318,8 +474,8 @@ class Translator:
                 hi = 'None' if e.slice.upper is None else '(Some %s)' % self.expr(e.slice.upper, c, pre)
                 return '(ESlice %s %s %s)' % (v, lo, hi)
             return '(EIndex %s %s)' % (v, self.expr(e.slice, c, pre))
-        if (isinstance(e, ast.BinOp) and isinstance(e.op, ast.Mod) and isinstance(e.left, ast.Constant)
-                and e.left.value == GUID_FMT and ast.unparse(e.right).startswith('tuple(reversed(')
+        if (isinstance(e, ast.BinOp) and isinstance(e.op, ast.Mod) and self.const_name(e.left, c) == GUID_FMT
+                and ast.unparse(e.right).startswith('tuple(reversed(')
                 and isinstance(e.right, ast.Call) and len(e.right.args) == 1 and len(e.right.args[0].args) == 1):
             return '(ECall "guid_string" [%s])' % self.expr(e.right.args[0].args[0], c, pre)
         if isinstance(e, ast.BinOp):
@@ -425,6 +581,13 @@ class Translator:
             return self.const_name(c.subst[key.id], c)
         if isinstance(key, ast.Constant) and isinstance(key.value, (str, int)) and not isinstance(key.value, bool):
             return key.value
+        if isinstance(key, (ast.Name, ast.Attribute)) and not (isinstance(key, ast.Name) and (key.id in c.names or key.id in c.msgs)):
+            try:
+                v = c.mod.const_of(key)
+            except Unsupp:
+                v = None
+            if isinstance(v, (str, int)) and not isinstance(v, bool):
+                return v
         if isinstance(key, ast.BinOp) and isinstance(key.op, ast.Mod):
             fmt = self.const_name(key.left, c)
             if isinstance(key.right, ast.Tuple):
@@ -460,8 +623,9 @@ class Translator:
                     return '(ECall "split_dot_int" [%s])' % self.expr(inner, c, pre)
                 return '(ECall "bytebuffer" [%s])' % self.expr(a, c, pre)
             if name == 'VersionField' and len(e.args) == 1 and isinstance(e.args[0], ast.Tuple) and len(e.args[0].elts) == 2:
-                if not hand_ok(self.pkg, 'fields.py'):
-                    raise Unsupp('fields.VersionField differs from the hand-modelled source')
+                ok, why = behaviour_ok(self.R.repo, 'version_field')
+                if not ok:
+                    raise Unsupp('fields.VersionField behaves differently from the hand-written builtin: %s' % why)
                 return '(ECall "version_field" [%s; %s])' % tuple(self.expr(x, c, pre) for x in e.args[0].elts)
             if name in ('hasattr', 'getattr') and len(e.args) in (2, 3):
                 key = self.const_name(e.args[1], c)
@@ -491,8 +655,6 @@ class Translator:
             if isinstance(f.value, ast.Name) and f.value.id == 'self' and c.selfkind == 'ipmi':
                 if f.attr == 'send_message':
                     raise Unsupp('send_message used as an expression')
-                if f.attr == 'send_message_with_name':
-                    return self.send_with_name(e, c, pre)
                 if f.attr in self.R.methods:
                     clsname, fn, modname, _ = self.R.methods[f.attr]
                     return self.inline_function(Mod.get(self.pkg, modname + '.py'), fn, e, c, pre, selfkind='ipmi')
@@ -500,8 +662,9 @@ class Translator:
             # ComponentProperty.from_data(selector, data): hand-modelled (builtin component_property)
             if (isinstance(f.value, ast.Name) and f.value.id == 'ComponentProperty' and f.attr == 'from_data'
                     and len(e.args) == 2 and not e.keywords and c.mod.rel == 'hpm.py'):
-                if not (hand_ok(self.pkg, 'hpm.py') and hand_ok(self.pkg, 'fields.py')):
-                    raise Unsupp('hpm.ComponentProperty classes differ from the hand-modelled source')
+                ok, why = behaviour_ok(self.R.repo, 'component_property')
+                if not ok:
+                    raise Unsupp('hpm.ComponentProperty behaves differently from the hand-written builtin: %s' % why)
                 return '(ECall "component_property" [%s; %s])' % (self.expr(e.args[0], c, pre), self.expr(e.args[1], c, pre))
             # table.get(k, d)
             if f.attr == 'get' and isinstance(f.value, ast.Name) and f.value.id in c.mod.tables and len(e.args) == 2:
@@ -568,32 +731,60 @@ class Translator:
         return ('msg', rsp)
 
     def bind_params(self, fn, call, c, nc, pre, skip_self):
-        """bind the parameters of fn in the new context nc from the call's arguments"""
+        """bind the parameters of fn in the new context nc from the call's arguments.  Constant arguments are
+        propagated statically (when the callee never rebinds the parameter); surplus keyword arguments go to **kwargs
+        as a statically known dict (so that `for k, v in kwargs.items(): setattr(req, k, v)` unrolls)"""
         params = fn.args.args[1:] if skip_self else fn.args.args
-        if fn.args.vararg or fn.args.kwarg or fn.args.kwonlyargs:
-            raise Unsupp('*args/**kwargs in %s' % fn.name)
+        if fn.args.kwonlyargs:
+            raise Unsupp('keyword-only parameters in %s' % fn.name)
         defaults = [None] * (len(params) - len(fn.args.defaults)) + list(fn.args.defaults)
         given = {}
         for p, a in zip(params, call.args):
             given[p.arg] = a
         if len(call.args) > len(params):
             raise Unsupp('too many arguments for %s' % fn.name)
+        extra = []
+        pnames = {p.arg for p in params}
         for kw in call.keywords:
             if kw.arg is None:
-                raise Unsupp('**kwargs')
-            given[kw.arg] = kw.value
+                raise Unsupp('**kwargs in a call')
+            if kw.arg in pnames:
+                given[kw.arg] = kw.value
+            elif fn.args.kwarg is not None:
+                extra.append((kw.arg, kw.value))
+            else:
+                raise Unsupp('unexpected keyword argument %s for %s' % (kw.arg, fn.name))
+        rebound = {n.id for n in ast.walk(fn) if isinstance(n, ast.Name) and isinstance(n.ctx, (ast.Store, ast.Del))}
         for p, d in zip(params, defaults):
             a = given.get(p.arg, d)
             if a is None:
                 raise Unsupp('missing argument %s of %s' % (p.arg, fn.name))
             in_caller = p.arg in given
-            v = self.expr_m(a, c if in_caller else nc, pre)
+            src = c if in_caller else nc
+            if p.arg not in rebound:
+                k = self.const_name(a, src)
+                if isinstance(k, (str, int)) and not isinstance(a, ast.Name):
+                    nc.subst[p.arg] = ast.Constant(value=k)
+                    continue
+            v = self.expr_m(a, src, pre)
             if isinstance(v, tuple) and v[0] == 'msg':
                 nc.msgs[p.arg] = v[1]
             else:
                 pre.append('SLet %s %s' % (q(nc.local(p.arg)), v))
                 if isinstance(a, ast.Name) and in_caller and a.id in c.objcls:
                     nc.objcls[p.arg] = c.objcls[a.id]
+        if fn.args.kwarg is not None:
+            entries = []
+            for kname, vnode in extra:
+                v = self.expr_m(vnode, c, pre)
+                if isinstance(v, tuple):
+                    raise Unsupp('message passed through **kwargs')
+                tmp = '%s$%s' % (fn.args.kwarg.arg, kname)
+                pre.append('SLet %s %s' % (q(nc.local(tmp)), v))
+                entries.append((kname, ast.Name(id=tmp, ctx=ast.Load())))
+            if fn.args.kwarg.arg in rebound:
+                raise Unsupp('**kwargs rebound in %s' % fn.name)
+            nc.dicts[fn.args.kwarg.arg] = entries
 
     def inline_function(self, mod, fn, call, c, pre, selfkind, cls=None, self_expr=None):
         if c.depth >= MAX_INLINE:
@@ -603,6 +794,7 @@ class Translator:
         if any(ast.unparse(d) in ('staticmethod', 'classmethod', 'property') for d in fn.decorator_list):
             raise Unsupp('decorated %s' % fn.name)
         nc = Ctx(self, mod, c.depth + 1, selfkind, cls)
+        nc.fn = fn
         if selfkind == 'obj':
             if isinstance(self_expr, ast.Name) and self_expr.id in c.names:
                 nc.names['self'] = c.names[self_expr.id]          # the same object, not a copy
@@ -614,8 +806,7 @@ class Translator:
         self.bind_params(fn, call, c, nc, pre, skip_self=selfkind is not None)
         nc.ret = self.fresh('ret')
         pre.append('SLet %s (EConst PNone)' % q(nc.ret))
-        body, _ = self.block(self.strip_doc(fn.body), nc)
-        pre.extend(body)
+        pre.extend(self.block(self.strip_doc(fn.body), nc))
         if len(nc.retinfo['msgs']) == 1 and not nc.retinfo['other']:
             return ('msg', list(nc.retinfo['msgs'])[0])
         return '(EVar %s)' % q(nc.ret)
@@ -712,8 +903,8 @@ class Translator:
             nc.mod = im
             self.bind_params(ifn, call, c, nc, pre, skip_self=True)
             nc.ret = self.fresh('ret')
-            body, _ = self.block(self.strip_doc(ifn.body), nc)
-            pre.extend(body)
+            nc.fn = ifn
+            pre.extend(self.block(self.strip_doc(ifn.body), nc))
         return '(EVar %s)' % q(obj)
 
     def state_init(self, mod, cname, arg, c, nc, pre):
@@ -736,15 +927,41 @@ class Translator:
         nc2.shared = nc.shared
         nc2.msgs[ffn.args.args[1].arg] = mv
         nc2.ret = self.fresh('ret')
-        body, _ = self.block(self.strip_doc(ffn.body), nc2)
-        pre.extend(body)
+        nc2.fn = ffn
+        pre.extend(self.block(self.strip_doc(ffn.body), nc2))
 
     # ---- statements ----
-    def block(self, stmts, c):
-        """-> (coq statements, always_returns)"""
+    @staticmethod
+    def has_jump(stmts):
+        """does the statement list contain a return, or a break/continue that belongs to an enclosing loop"""
+        def walk(n, in_loop):
+            if isinstance(n, ast.Return):
+                return True
+            if isinstance(n, (ast.Break, ast.Continue)):
+                return not in_loop
+            if isinstance(n, (ast.FunctionDef, ast.Lambda, ast.ClassDef)):
+                return False
+            inner = in_loop or isinstance(n, (ast.For, ast.While))
+            for ch in ast.iter_child_nodes(n):
+                if isinstance(n, (ast.For, ast.While)) and ch in getattr(n, 'orelse', []):
+                    if walk(ch, in_loop):
+                        return True
+                elif walk(ch, inner):
+                    return True
+            return False
+        return any(walk(x, False) for x in stmts)
+
+    def block(self, stmts, c, k=None, brk=None, cont=None):
+        """statements, followed by the continuation k (ctx -> coq statements: what runs after this block on the
+        same path; None = nothing).  brk / cont: continuations of break / continue of the enclosing unrolled loop.
+        A branch that contains a jump (return / break / continue) gets the rest of the block pushed into both
+        branches of its `if` (tail form); blocks without jumps stay sequential."""
         out = []
         for i, s in enumerate(stmts):
             self.nstmts += 1
+            if self.nstmts > 6000:
+                raise Unsupp('unrolled code too large')
+            rest = stmts[i + 1:]
             if isinstance(s, ast.Return):
                 if s.value is None:
                     c.retinfo['other'] = True
@@ -757,36 +974,217 @@ class Translator:
                     else:
                         c.retinfo['other'] = True
                     out.append('SLet %s %s' % (q(c.ret), v))
-                return out, True
+                return out
             if isinstance(s, ast.Raise):
                 out.append(self.raise_stmt(s, c))
-                return out, True
+                return out
+            if isinstance(s, ast.Break):
+                if brk is None:
+                    raise Unsupp('break outside an unrolled loop')
+                return out + brk(c)
+            if isinstance(s, ast.Continue):
+                if cont is None:
+                    raise Unsupp('continue outside an unrolled loop')
+                return out + cont(c)
             if isinstance(s, ast.If):
                 test = self.expr(s.test, c, out)
                 ca, cb = c.child_copy(), c.child_copy()
                 self.share_state(c, ca), self.share_state(c, cb)
-                a, ra = self.block(s.body, ca)
-                b, rb = self.block(s.orelse, cb)
-                rest = stmts[i + 1:]
-                if ra or rb:
-                    if not ra:
-                        x, ra = self.block(rest, ca)
-                        a += x
-                    if not rb:
-                        x, rb = self.block(rest, cb)
-                        b += x
+                if self.has_jump([s]):
+                    kk = (lambda rest_: lambda cc: self.block(rest_, cc, k, brk, cont))(rest)
+                    a = self.block(s.body, ca, kk, brk, cont)
+                    b = self.block(s.orelse, cb, kk, brk, cont)
                     out.append('SIf %s [%s] [%s]' % (test, '; '.join(a), '; '.join(b)))
-                    return out, ra and rb
-                # names bound in a branch stay visible afterwards
+                    return out
+                a = self.block(s.body, ca)
+                b = self.block(s.orelse, cb)
                 for cc in (ca, cb):
-                    for k, v in cc.names.items():
-                        c.names.setdefault(k, v)
-                    for k, v in cc.objcls.items():
-                        c.objcls.setdefault(k, v)
+                    for kx, v in cc.objcls.items():
+                        c.objcls.setdefault(kx, v)
                 out.append('SIf %s [%s] [%s]' % (test, '; '.join(a), '; '.join(b)))
                 continue
+            if isinstance(s, ast.For):
+                items = self.static_items(s.iter, c)
+                if items is None:
+                    raise Unsupp('loop over %s' % ast.unparse(s.iter)[:40])
+                if len(items) > 64:
+                    raise Unsupp('loop too long to unroll')
+                binds = [self.destructure(s.target, it) for it in items]
+                if self.has_jump(s.body) or s.orelse:
+                    after = (lambda rest_: lambda cc: self.block(rest_, cc, k, brk, cont))(rest)
+
+                    def run_iter(j, cc):
+                        if j == len(binds):
+                            return self.block(list(s.orelse) + list(rest), cc, k, brk, cont)
+                        cj = cc.child_copy()
+                        self.share_state(cc, cj)
+                        cj.subst.update(binds[j])
+                        nxt = (lambda j_: lambda c2: run_iter(j_ + 1, self.unbind(c2, binds[j_], cc)))(j)
+                        return self.block(s.body, cj, nxt, lambda c2: after(self.unbind(c2, binds[j], cc)), nxt)
+                    return out + run_iter(0, c)
+                saved = dict(c.subst)
+                for bnd in binds:
+                    c.subst.update(bnd)
+                    out.extend(self.block(s.body, c))
+                c.subst = saved
+                continue
             out.extend(self.simple(s, c))
-        return out, False
+        if k is not None:
+            out += k(c)
+        return out
+
+    @staticmethod
+    def unbind(c2, bnd, outer):
+        """leave an unrolled iteration: the loop variables are no longer substituted"""
+        for name in bnd:
+            if name in outer.subst:
+                c2.subst[name] = outer.subst[name]
+            else:
+                c2.subst.pop(name, None)
+        return c2
+
+    # ---- statically known iterables ----
+    @staticmethod
+    def to_ast(v):
+        if isinstance(v, tuple) and len(v) == 3 and v[0] == 'range':
+            return ast.Tuple(elts=[ast.Constant(value=i) for i in range(v[1], v[2])], ctx=ast.Load())
+        if isinstance(v, tuple):
+            return ast.Tuple(elts=[Translator.to_ast(x) for x in v], ctx=ast.Load())
+        return ast.Constant(value=v)
+
+    def assigned_once(self, c, name):
+        """the local `name` is bound exactly once in the function and never mutated through a method call"""
+        if c.fn is None:
+            return False
+        stores = [n for n in ast.walk(c.fn) if isinstance(n, ast.Name) and n.id == name and isinstance(n.ctx, (ast.Store, ast.Del))]
+        mut = [n for n in ast.walk(c.fn) if isinstance(n, ast.Call) and isinstance(n.func, ast.Attribute)
+               and isinstance(n.func.value, ast.Name) and n.func.value.id == name
+               and n.func.attr in ('append', 'extend', 'insert', 'pop', 'remove', 'clear', 'sort', 'reverse', 'update')]
+        return len(stores) == 1 and not mut
+
+    def class_level(self, c, attr):
+        """the class-level assignment `attr = <expr>` visible as self.attr (value node), or None"""
+        if c.selfkind == 'obj':
+            chain = self.class_chain(c.mod, c.cls)
+        else:
+            chain = [(Mod.get(self.pkg, modname + '.py'), cd) for modname, cd, _ in self.R.classes]
+        for m, cd in chain:
+            for st in cd.body:
+                if isinstance(st, ast.Assign) and any(isinstance(t, ast.Name) and t.id == attr for t in st.targets):
+                    return m, st.value
+        return None
+
+    def static_items(self, it, c):
+        """the elements of an iterable that is known at translation time, as ast nodes; None if it is not"""
+        if isinstance(it, ast.Name) and it.id in c.subst:
+            return self.static_items(c.subst[it.id], c)
+        if isinstance(it, (ast.Tuple, ast.List)):
+            return list(it.elts)
+        if isinstance(it, ast.Name) and it.id in c.tuples and self.assigned_once(c, it.id):
+            return list(c.tuples[it.id])
+        if isinstance(it, ast.Call):
+            f = it.func
+            if isinstance(f, ast.Name) and f.id == 'range' and not it.keywords:
+                vals = [self.const_name(a, c) for a in it.args]
+                if all(isinstance(v, int) and not isinstance(v, bool) for v in vals) and 1 <= len(vals) <= 3:
+                    return [ast.Constant(value=i) for i in range(*vals)]
+                return None
+            if isinstance(f, ast.Name) and f.id == 'enumerate' and 1 <= len(it.args) <= 2 and not it.keywords:
+                inner = self.static_items(it.args[0], c)
+                start = self.const_name(it.args[1], c) if len(it.args) == 2 else 0
+                if inner is None or not isinstance(start, int):
+                    return None
+                return [ast.Tuple(elts=[ast.Constant(value=start + i), x], ctx=ast.Load()) for i, x in enumerate(inner)]
+            if isinstance(f, ast.Name) and f.id == 'zip' and it.args and not it.keywords:
+                cols = [self.static_items(a, c) for a in it.args]
+                if any(x is None for x in cols):
+                    return None
+                return [ast.Tuple(elts=list(row), ctx=ast.Load()) for row in zip(*cols)]
+            if isinstance(f, ast.Name) and f.id in ('list', 'tuple', 'reversed', 'sorted') and len(it.args) == 1 and not it.keywords:
+                inner = self.static_items(it.args[0], c)
+                if inner is None:
+                    return None
+                if f.id == 'reversed':
+                    return list(reversed(inner))
+                if f.id == 'sorted':
+                    if not all(isinstance(x, ast.Constant) for x in inner):
+                        return None
+                    return sorted(inner, key=lambda x: x.value)
+                return inner
+            if isinstance(f, ast.Attribute) and f.attr in ('items', 'keys', 'values') and not it.args:
+                d = self.static_dict(f.value, c)
+                if d is None:
+                    return None
+                if f.attr == 'keys':
+                    return [kx for kx, _ in d]
+                if f.attr == 'values':
+                    return [v for _, v in d if v is not None] if all(v is not None for _, v in d) else None
+                if any(v is None for _, v in d):
+                    return None
+                return [ast.Tuple(elts=[kx, v], ctx=ast.Load()) for kx, v in d]
+        d = self.static_dict(it, c)
+        if d is not None:
+            return [kx for kx, _ in d]          # iterating a dict yields its keys
+        # a constant sequence: module constant, imported constant, class constant (also through self.)
+        node = it
+        if self.is_self(it) and isinstance(it, ast.Attribute):
+            hit = self.class_level(c, it.attr)
+            if hit is None:
+                return None
+            m, node = hit
+            if isinstance(node, (ast.Tuple, ast.List)) and c.selfkind == 'obj':
+                return list(node.elts)          # elements may mention self.<CONST>: evaluated where they are used
+            try:
+                v = m.const_of(node)
+            except Unsupp:
+                return None
+        else:
+            try:
+                v = c.mod.const_of(node)
+            except Unsupp:
+                return None
+        if isinstance(v, tuple) and not (len(v) == 3 and v[0] == 'range' and isinstance(v[1], int)):
+            return [self.to_ast(x) for x in v]
+        if isinstance(v, tuple):
+            return [ast.Constant(value=i) for i in range(v[1], v[2])]
+        if isinstance(v, str):
+            return [ast.Constant(value=ch) for ch in v]
+        return None
+
+    @staticmethod
+    def is_self(n):
+        return isinstance(n, ast.Attribute) and isinstance(n.value, ast.Name) and n.value.id == 'self'
+
+    def static_dict(self, node, c):
+        """[(key node, value node or None)] of a dict known at translation time"""
+        if isinstance(node, ast.Name) and node.id in c.subst:
+            return self.static_dict(c.subst[node.id], c)
+        if isinstance(node, ast.Name) and node.id in c.dicts:
+            return [(ast.Constant(value=kx), v) for kx, v in c.dicts[node.id]]
+        if isinstance(node, ast.Dict) and all(kx is not None for kx in node.keys):
+            return list(zip(node.keys, node.values))
+        if isinstance(node, ast.Name) and node.id in c.mod.tables:
+            return [(self.to_ast(kx), self.to_ast(v)) for kx, v in c.mod.tables[node.id]]
+        if self.is_self(node):
+            hit = self.class_level(c, node.attr)
+            if hit is not None and isinstance(hit[1], ast.Dict) and all(kx is not None for kx in hit[1].keys):
+                return [(kx, None) for kx in hit[1].keys]      # values may be arbitrary expressions: keys only
+        return None
+
+    def destructure(self, target, item):
+        """bind the loop target pattern to one item: {python name: ast node}"""
+        if isinstance(target, ast.Name):
+            return {target.id: item}
+        if isinstance(target, (ast.Tuple, ast.List)):
+            if isinstance(item, ast.Constant) and isinstance(item.value, tuple):
+                item = self.to_ast(item.value)
+            if not isinstance(item, (ast.Tuple, ast.List)) or len(item.elts) != len(target.elts):
+                raise Unsupp('cannot destructure %s' % ast.unparse(item)[:40])
+            out = {}
+            for t, x in zip(target.elts, item.elts):
+                out.update(self.destructure(t, x))
+            return out
+        raise Unsupp('loop target %s' % ast.unparse(target)[:40])
 
     @staticmethod
     def share_state(c, cc):
@@ -861,8 +1259,6 @@ class Translator:
                 raise Unsupp('augmented %s' % type(s.op).__name__)
             cur = ast.copy_location(ast.BinOp(left=self.load(s.target), op=s.op, right=s.value), s)
             return self.assign(s.target, cur, c)
-        if isinstance(s, ast.For):
-            return self.unroll(s, c)
         raise Unsupp('statement %s' % type(s).__name__)
 
     @staticmethod
@@ -876,12 +1272,13 @@ class Translator:
         if isinstance(t, ast.Name) and isinstance(value, ast.Call):
             f = value.func
             if isinstance(f, ast.Name) and f.id == 'create_request_by_name':
-                if not (len(value.args) == 1 and isinstance(value.args[0], ast.Constant) and isinstance(value.args[0].value, str)):
+                name = self.const_name(value.args[0], c) if len(value.args) == 1 else None
+                if not isinstance(name, str):
                     raise Unsupp('create_request_by_name with a non-literal name')
                 mv = self.fresh(t.id)
                 c.msgs[t.id] = mv
                 c.names.pop(t.id, None)
-                out.append('SNewReq %s %s' % (q(mv), q(value.args[0].value)))
+                out.append('SNewReq %s %s' % (q(mv), q(name)))
                 return out
             if (isinstance(f, ast.Attribute) and isinstance(f.value, ast.Name) and f.value.id == 'self'
                     and f.attr == 'send_message' and c.selfkind == 'ipmi'):
@@ -895,7 +1292,7 @@ class Translator:
             if isinstance(f, ast.Name) and f.id == 'dict' and not value.args and value.keywords:
                 c.dicts[t.id] = [(kw.arg, kw.value) for kw in value.keywords]
                 return out
-        if isinstance(t, ast.Name) and isinstance(value, ast.Tuple) and all(isinstance(x, ast.Constant) for x in value.elts):
+        if isinstance(t, ast.Name) and isinstance(value, (ast.Tuple, ast.List)):
             c.tuples[t.id] = list(value.elts)
             # also usable as a value
         if isinstance(t, ast.Name) and isinstance(value, ast.Dict) and not value.keys:
@@ -957,52 +1354,6 @@ class Translator:
                 return out
         raise Unsupp('assignment to %s' % ast.unparse(t)[:40])
 
-    def unroll(self, s, c):
-        if s.orelse or any(isinstance(x, (ast.Break, ast.Continue)) for x in ast.walk(s)):
-            raise Unsupp('loop with break/continue/else')
-        it = s.iter
-        items = None          # list of {name: ast node}
-        if isinstance(it, ast.Name) and it.id in c.tuples and isinstance(s.target, ast.Name):
-            items = [{s.target.id: e} for e in c.tuples[it.id]]
-        elif isinstance(it, (ast.Tuple, ast.List)) and isinstance(s.target, ast.Name) \
-                and all(isinstance(x, (ast.Constant, ast.Name)) for x in it.elts):
-            items = [{s.target.id: e} for e in it.elts]
-        elif (isinstance(it, ast.Call) and isinstance(it.func, ast.Attribute) and it.func.attr == 'items'
-              and isinstance(it.func.value, ast.Name) and it.func.value.id in c.dicts
-              and isinstance(s.target, ast.Tuple) and len(s.target.elts) == 2):
-            k, v = s.target.elts
-            items = [{k.id: ast.Constant(value=key), v.id: val} for key, val in c.dicts[it.func.value.id]]
-        elif isinstance(it, ast.Call) and ast.unparse(it.func) == 'range' and isinstance(s.target, ast.Name) \
-                and all(isinstance(a, ast.Constant) for a in it.args) and 1 <= len(it.args) <= 2:
-            r = range(*[a.value for a in it.args])
-            if len(r) > 64:
-                raise Unsupp('range too long to unroll')
-            items = [{s.target.id: ast.Constant(value=i)} for i in r]
-        elif (isinstance(it, ast.Call) and isinstance(it.func, ast.Attribute) and it.func.attr == 'keys'
-              and ast.unparse(it.func.value).startswith('self.') and c.selfkind == 'obj' and isinstance(s.target, ast.Name)):
-            attr = it.func.value.attr
-            keys = None
-            for m, cd in self.class_chain(c.mod, c.cls):
-                for st in cd.body:
-                    if isinstance(st, ast.Assign) and isinstance(st.value, ast.Dict) and \
-                            any(isinstance(t, ast.Name) and t.id == attr for t in st.targets):
-                        keys = st.value.keys
-            if keys is None or not all(isinstance(k, ast.Constant) for k in keys):
-                raise Unsupp('loop over %s' % ast.unparse(it))
-            items = [{s.target.id: k} for k in keys]
-        if items is None:
-            raise Unsupp('loop over %s' % ast.unparse(it)[:40])
-        out = []
-        saved = dict(c.subst)
-        for binding in items:
-            c.subst.update(binding)
-            body, ret = self.block(s.body, c)
-            if ret:
-                raise Unsupp('return inside a loop')
-            out.extend(body)
-        c.subst = saved
-        return out
-
     # ---- one operation ----
     def operation(self, clsname, fn, modname):
         mod = Mod.get(self.pkg, modname + '.py')
@@ -1021,8 +1372,8 @@ class Translator:
                     params.append('(%s, Some %s)' % (q(p.arg), pv_of(mod.const_of(d))))
             c.ret = 'ret$'
             self.nstmts = 0
-            body, _ = self.block(self.strip_doc(fn.body), c)
-            body = ['SLet "ret$" (EConst PNone)'] + body
+            c.fn = fn
+            body = ['SLet "ret$" (EConst PNone)'] + self.block(self.strip_doc(fn.body), c)
         except Unsupp as e:
             body = ['SUnsupported %s' % q(str(e))]
         except RecursionError:
@@ -1078,7 +1429,7 @@ def class_has_state(R, name):
 
 def emit_content(R, repo):
     T = Translator(R)
-    out = ['(* GENERATED by gen/gen_api.py (apifrag) from %s - do not edit *)' % repo,
+    out = ['(* GENERATED by gen/gen_api.py (apifrag) from the tree under test - do not edit *)',
            'From Coq Require Import String Ascii.', 'From Coq Require Import NArith ZArith List.',
            'From PyIpmi Require Import Lib.Res Lib.Bytes Model.Codec Model.ApiSem.', 'Import ListNotations.',
            'Open Scope string_scope.', 'Open Scope Z_scope.', '']
